@@ -28,7 +28,7 @@ TRUSTED_BASE = [
     "hand-written model Frame/Sizes.v, tied by harness/p9/c13_sizes_test.go + Frame/SizesCases.v",
 ]
 
-SHARD = 400
+SHARD = 220
 
 
 def nlist(a):
@@ -70,7 +70,7 @@ def to_case(o):
         frames = "[" + "; ".join("(%d, %d, %d)" % (f["type"], f["size"], f["count"]) for f in (o.get("frames") or [])) + "]"
         alls = nlist([f["size"] for f in (o.get("all") or [])][1:])   # without the Tversion itself
         answers = "[" + "; ".join("(%d, %s)" % (a[0], coq_bool(a[1] != 0)) for a in (o.get("answers") or [])) + "]"
-        return "SClient %d %d %d %d %d %d %d %d %s %s %s" % (o["req"], o["announce"], RES[o["result"]], o.get("msize", 0), o.get("payload", 0), OPS[o["op"]],
+        return "SClient %d %d %d %d %d %d %d %d %s %s %s" % (o["req"], o["announce"], 3 if o.get("hang") else RES[o["result"]], o.get("msize", 0), o.get("payload", 0), OPS[o["op"]],
                                                             o["n"], o["avail"], frames, alls, answers)
     raise ValueError(k)
 
@@ -87,7 +87,7 @@ def run(ctx):
                      "Definition cases : list scase := [\n  %s\n].\n"
                      "Definition M := Eval vm_compute in mismatches cases.\nPrint M.\n"
                      "Definition P := Eval vm_compute in property_failures cases.\nPrint P.\n" % cases)
-    res = ctx.coq_eval_shards("C13_cases", texts, ["M", "P"], workers=8)
+    res = ctx.coq_eval_shards("C13_cases", texts, ["M", "P"], workers=12)
     nm = 0
     kinds = {}
     for o in obs:
